@@ -735,42 +735,72 @@ def callers(ctx):
     f = ctx.f
     ps = parse_fns(ctx)
     names = {p.name for p in ps}
-    # wrappers: local fns whose own param flows to the parser's 2nd arg (try_parse_many)
-    wrappers = {}
-    for b in f.user_bodies():
-        for bb, t in b.calls():
-            if callee_base(t) in names:
-                at = b.prov.operand_atoms(t["args"][1], interproc=False)
-                outer = r.outer_fn(b)
-                for a in at:
-                    if a[0] == "param" and b is outer:
-                        wrappers[outer.name] = a[1]
-                    if a[0] == "field" and a[1].startswith("{env of") and outer is not b:
-                        # captured variable of a closure: find which param of the outer fn it is
-                        for i in range(1, outer.argc + 1):
-                            if outer.locals[i].get("name") and outer.locals[i]["name"] in a[2]:
-                                wrappers[outer.name] = i
-    targets = dict(wrappers)
-    for p in ps:
-        targets[p.name] = 2
-    n = 0
-    for b in f.user_bodies():
+    m = r.main_body()
+    entry = [callee_base(t) for bb, t in f.bodies[m.name].calls() if t["callee"]["local"] and callee_base(t) in f.bodies and re.search(r"Result<std::collections::HashMap<[\w:]*TargetId, [\w:]*Target>", f.bodies[callee_base(t)].ret)]
+    ctx.need(entry, "resolver entry in main")
+    in_files = f.cg.reach(entry, cross_spawn=False) | set(entry)    # code that interprets project files
+    # what a function hands to the parser as `current project`, in terms of the function itself: 'root' (the configuration's root project name),
+    # 'own' (the project of a target id), or ('param', i) (passed through from its own i-th parameter: a wrapper)
+    summary = {p.name: ("param", 2) for p in ps}
+    sites = {}   # (raw body name, bb) -> (kind, callee)
+
+    def kind_of(b, op):
+        at = b.prov.operand_atoms(op, interproc=False)
+        if atom_has_field(at, "root_project_name"):
+            return "root"
+        if atom_has_field(at, "project_name", "TargetId"):
+            return "own"
         outer = r.outer_fn(b)
-        for bb, t in b.calls():
-            cn = callee_base(t)
-            if cn not in targets or outer.name in wrappers and cn in names:
-                continue
-            idx = targets[cn] - 1
-            if idx >= len(t["args"]):
-                continue
-            at = b.prov.operand_atoms(t["args"][idx], interproc=False)
-            n += 1
-            if outer.name == "main":
-                ok = atom_has_field(at, "root_project_name")
-                ctx.check(ok, f"main/{short(cn)}", [site(b, bb)], "requested names are not parsed relative to the root project")
-            else:
-                ok = atom_has_field(at, "project_name", "TargetId") and not atom_has_field(at, "root_project_name")
-                ctx.check(ok, f"{short(outer.name)}/{short(cn)}@{bb}", [site(b, bb)], "a reference inside a project file is not parsed relative to the declaring target's own project")
+        for a in at:
+            if a[0] == "param" and b is outer:
+                return ("param", a[1])
+            if a[0] == "field" and a[1].startswith("{env of") and outer is not b:
+                for i in range(1, outer.argc + 1):
+                    if outer.locals[i].get("name") and outer.locals[i]["name"] in a[2]:
+                        return ("param", i)
+        return None
+
+    for _ in range(6):
+        changed = False
+        for b in f.user_bodies():
+            outer = r.outer_fn(b)
+            for bb, t in b.calls():
+                cn = callee_base(t)
+                if cn not in summary:
+                    continue
+                sm = summary[cn]
+                if sm in ("root", "own"):
+                    k = sm
+                else:
+                    idx = sm[1] - 1
+                    k = kind_of(b, t["args"][idx]) if idx < len(t["args"]) else None
+                if sites.get((b.name, bb)) != (k, cn):
+                    sites[(b.name, bb)] = (k, cn)
+                    changed = True
+                # the enclosing function becomes a wrapper: always when it passes its own parameter through; when it fixes the reading itself ('root' /
+                # 'own') only if it is a name resolver (it returns the parsed id(s) and nothing else)
+                resolver_shaped = re.match(r"^std::(result::Result|option::Option)<(std::vec::Vec<)?[\w:]*TargetId>?(, anyhow::Error)?>$", outer.ret) is not None
+                if k is not None and outer.name != m.name and outer.name not in names and summary.get(outer.name) != k and (isinstance(k, tuple) or resolver_shaped):
+                    summary[outer.name] = k
+                    changed = True
+        if not changed:
+            break
+    n = 0
+    for (bn, bb), (k, cn) in sorted(sites.items()):
+        b = f.bodies[bn]
+        outer = r.outer_fn(b)
+        if isinstance(k, tuple):
+            continue   # a wrapper: judged where it is called
+        n += 1
+        lab = f"{short(outer.name)}/{short(cn)}@{bb}" if outer.name != m.name else f"main/{short(cn)}"
+        if outer.name == m.name:
+            ctx.check(k == "root", lab, [site(b, bb)], "requested names are not parsed relative to the root project")
+        elif outer.name in in_files:
+            ctx.check(k == "own", lab, [site(b, bb)], "a reference inside a project file is not parsed relative to the declaring target's own project")
+        else:
+            # a helper outside the interpretation of project files (e.g. resolving the names given on the command line): either reading is legitimate here,
+            # what matters is where the helper is used - and that is judged at its call sites through its summary
+            ctx.check(k in ("root", "own"), lab, [site(b, bb)], "the current project handed to the name parser is neither the root project nor a target's own project")
     ctx.need(n >= 3, f"call sites of the name parser outside its wrappers (found {n})")
 
 
